@@ -51,3 +51,23 @@ Example write_after_values :
   run begin_write_after init [ABegin 0; ATraverse 0 0; ARead 0 0; ABegin 1; ATraverse 1 0; ARead 1 0]
   = Some [VUnit; VUnit; VCtx None; VUnit; VUnit; VCtx (Some 0)].
 Proof. vm_compute. reflexivity. Qed.
+
+(* Seeded change C06/1 (never in /repo): the copy is made only when the task's *prepared* DependencyGraph has
+   use_cache=False sub-graphs
+       async_ctx(broker_ctx.copy() if dependency_graph.subgraphs else broker_ctx, overrides)
+   but with broker.dependency_overrides async_ctx resolves a new graph, built per execution from the overrides.  p i
+   stands for "the prepared graph of execution i's task has un-cached sub-graphs"; whether the execution creates
+   sub-contexts (ATraverse i c with c > 0) depends on the *overridden* graph, so p i = false does not exclude them.
+   Witness: corpus/C06/seeded1_override_adds_uncached.json. *)
+Definition begin_cond (p : nat -> bool) : begin_t := fun h i => if p i then begin_copy h i else begin_shared h i.
+
+Theorem C06_isolated_refuted_conditional_copy : forall p, p 0 = false ->
+  exists vals, run (begin_cond p) init d2_witness = Some vals /\ C06_check d2_witness vals = false.
+Proof.
+  intros p H. unfold d2_witness. destruct (p 1) eqn:H1; eexists; unfold run, step, begin_cond; rewrite H; cbn;
+    rewrite ?H1; cbn; split; reflexivity.
+Qed.
+
+(* with the test answering "copy" for every execution it is the current code *)
+Lemma begin_cond_true : forall p h i, p i = true -> begin_cond p h i = begin_copy h i.
+Proof. intros p h i H. unfold begin_cond. now rewrite H. Qed.
